@@ -299,7 +299,10 @@ namespace options
             }
         }
 
-        s << "usage: " << app_name_;
+        // the synopsis line is laid out in a private stream: format_padded() derives the
+        // current column from the stream position, which must not depend on the target stream
+        std::stringstream synopsis;
+        synopsis << "usage: " << app_name_;
 
         std::stringstream usage;
 
@@ -339,8 +342,10 @@ namespace options
         {
             out = out.substr(1);
 
-            nitro::io::terminal::format_padded(s, out, 8 + app_name_.size(), 80);
+            nitro::io::terminal::format_padded(synopsis, out, 8 + app_name_.size(), 80);
         }
+
+        s << synopsis.str();
 
         s << std::endl << std::endl;
 
